@@ -109,6 +109,37 @@ def extract_constants(c):
     return K
 
 
+EOS_TABLES = [("lf4_a", 0), ("lf6_a", 5), ("lf8_a", 9), ("lf4_2_a", 0), ("lf8_6_4_a", 4), ("lf8_6_4_b", 4), ("pmlf6_a", 2),
+              ("pmlf6_b", 2), ("pmlf6_c", 2), ("pmlf6_z", 6), ("pmlf6_y", 6), ("pmlf6_v", 6), ("pmlf4_y", 3), ("pmlf4_z", 3),
+              ("plf7_6_4_a", 2), ("plf7_6_4_b", 2), ("plf7_6_4_z", 6), ("plf7_6_4_y", 6)]
+
+
+def extract_eos(c):
+    """translator: the coefficient tables of integrator_eos.c -> lean/RV/Gen/C09Eos.lean (bit patterns
+    of the doubles the C compiler sees); item counts are obligations"""
+    src = open(os.path.join(common.REPO, "src", "integrator_eos.c")).read()
+    fields, total = [], 0
+    for name, n in EOS_TABLES:
+        m = re.search(r"static const double %s(?:\[(\d+)\])?\s*=\s*(\{[^;]*\}|[^;{]+);" % name, src)
+        if not m:
+            c.broken.append("proof obligation: EOS table %s not found in integrator_eos.c" % name)
+            vals = [0.0] * max(n, 1)
+        else:
+            vals = [float(x) for x in re.findall(r"[-+]?(?:\d+\.\d*|\.\d+|\d+)(?:[eE][-+]?\d+)?", m.group(2))]
+        if len(vals) != max(n, 1):
+            c.broken.append("proof obligation: EOS table %s has %d entries, expected %d" % (name, len(vals), max(n, 1)))
+        total += len(vals)
+        hexs = ['fh "%s"' % d2h(v) for v in vals]
+        fields.append("  %s := %s" % (name, hexs[0] if n == 0 else "[" + ", ".join(hexs) + "]"))
+    c.cov["extracted_eos_table_entries"] = total
+    txt = ("/- GENERATED by rv/c09.py (extract_eos) from src/integrator_eos.c — do not edit.\n"
+           "   The coefficient tables as the bit patterns of the doubles the compiler sees. -/\n"
+           "import RV.Model.SyncEos\nnamespace RV.Gen.C09\nopen RV\n\n"
+           "def fh (s : String) : Float := floatOfHex s\n\n"
+           "def eosTab : RV.Sync.Eos.Tab Float where\n" + "\n".join(fields) + "\n\nend RV.Gen.C09\n")
+    write_if_changed(os.path.join(common.LEAN, "RV", "Gen", "C09Eos.lean"), txt)
+
+
 def ev(tok, dt, K):
     """coefficient token -> double, in the operation order of the C expression"""
     k = tok.split(":")
@@ -162,6 +193,26 @@ def gen_system(rng, jacobi_only=False):
     return {"particles": ps, "N_active": n_active, "testparticle_type": tp_type, "dt": dt}
 
 
+def gen_crossing(rng):
+    """star + two planets on crossing orbits started close to each other (+ a third one far out,
+    + sometimes a test particle): close encounters within the first steps"""
+    m0 = 1.0
+    ps = [(m0, 0.0, 0.0, 0.0, 0.0, 0.0, 0.0)]
+    f0 = rng.uniform(0, 2 * math.pi)
+    for k, (a, e, df) in enumerate([(1.0, rng.uniform(0.0, 0.1), 0.0), (rng.uniform(1.01, 1.06), rng.uniform(0.05, 0.15), rng.uniform(-0.06, 0.02)),
+                                    (rng.uniform(2.6, 3.2), 0.02, 2.0)]):
+        m = rng.loguniform(3e-5, 1e-3)
+        f = f0 + df
+        r = a * (1 - e * e) / (1 + e * math.cos(f))
+        v0 = math.sqrt(m0 / (a * (1 - e * e)))
+        ps.append((m, r * math.cos(f), r * math.sin(f), 0.01 * k, -v0 * math.sin(f), v0 * (e + math.cos(f)), 0.0))
+    ntp = rng.choice([0, 0, 1])
+    if ntp:
+        ps.append((0.0, 1.03 * math.cos(f0 + 0.03), 1.03 * math.sin(f0 + 0.03), 0.0, -0.98 * math.sin(f0 + 0.03), 0.98 * math.cos(f0 + 0.03), 0.0))
+    return {"particles": ps, "N_active": (4 if ntp and rng.chance(0.7) else -1), "testparticle_type": rng.choice([0, 1]) if ntp else 0,
+            "dt": 2 * math.pi * rng.uniform(0.01, 0.03)}
+
+
 class World:
     """the scratch build + helpers that construct simulations and execute primitive lists"""
 
@@ -179,12 +230,15 @@ class World:
             getattr(lib, n).restype = None
         for n in ("reb_integrator_whfast_from_inertial", "reb_integrator_whfast_to_inertial", "reb_simulation_update_acceleration",
                   "reb_whfast_calculate_jerk", "reb_simulation_step", "reb_simulation_synchronize", "reb_simulation_rescale_var",
-                  "reb_integrator_mercurius_inertial_to_dh", "reb_integrator_mercurius_dh_to_inertial"):
+                  "reb_integrator_mercurius_inertial_to_dh", "reb_integrator_mercurius_dh_to_inertial",
+                  "reb_integrator_mercurius_part2"):
             getattr(lib, n).argtypes = [ctypes.c_void_p]
             getattr(lib, n).restype = None
         lib.reb_integrator_whfast_init.argtypes = [ctypes.c_void_p]
         lib.reb_integrator_whfast_init.restype = ctypes.c_int
         lib.reb_simulation_energy.restype = D
+        lib.reb_calculate_and_apply_jerk.argtypes = [ctypes.c_void_p, D]
+        lib.reb_calculate_and_apply_jerk.restype = None
         lib.reb_simulation_integrate.argtypes = [ctypes.c_void_p, D]
         lib.reb_simulation_integrate.restype = ctypes.c_int
         lib.reb_integrator_mercurius_calculate_dcrit_for_particle.argtypes = [ctypes.c_void_p, ctypes.c_uint]
@@ -336,6 +390,9 @@ class World:
                 if not rim._L:
                     FT = type(rim._L)
                     rim._L = FT(("reb_integrator_mercurius_L_mercury", lib))
+            elif name == "mPart2":
+                s.ri_mercurius.is_synchronized = int(arg)
+                lib.reb_integrator_mercurius_part2(r)
             elif name == "mI":
                 lib.reb_integrator_mercurius_interaction_step(r, ev(arg, dt, K))
             elif name == "mJ":
@@ -657,19 +714,24 @@ def replay(c, W, exe, ncases, family):
     c.sample({"replay_line": lines[0], "model": out[0][:300]})
 
 
-def replay_mercurius(c, W, exe, ncases):
+def replay_mercurius(c, W, exe, ncases, coarse=False):
+    """coarse: systems with close encounters; part2 (whose encounter prediction / IAS15 sub-integration
+    are static) is called as a whole with the flags of the model, everything else through primitives"""
     lines, cases = [], []
     for case in range(ncases):
         rng = c.rng.fork()
         system = gen_system(rng)
-        # wide, light systems: no close encounters (the encounter branch is static C, not replayable)
-        system["particles"] = [p if i == 0 else (p[0] * 0.01,) + p[1:] for i, p in enumerate(system["particles"])]
-        ops = gen_ops(rng, rng.randint(3, 9))
+        if coarse:
+            system = gen_crossing(rng)
+        else:
+            # wide, light systems: no close encounters (the encounter branch is static C, not replayable)
+            system["particles"] = [p if i == 0 else (p[0] * 0.01,) + p[1:] for i, p in enumerate(system["particles"])]
+        ops = gen_ops(rng, rng.randint(3, 9) if not coarse else rng.randint(8, 16))
         if "s" not in ops:
             ops.append("s")
         safe = int(rng.chance(0.35))
         toks, ops = add_integrates(rng, ops, Clock(system["dt"], False), (W.K["syncFirst"], W.K["forceSync"]))
-        lines.append("M %d 1 0 0 0 0 %s" % (safe, " ".join(toks)))
+        lines.append("%s %d 1 0 0 0 0 %s" % ("MC" if coarse else "M", safe, " ".join(toks)))
         cases.append((safe, system, ops, toks))
     out = run_driver(exe, lines)
     if len(out) != len(lines):
@@ -718,7 +780,8 @@ def replay_mercurius(c, W, exe, ncases):
                 B.particles[i].vy += dv
             if op in "si" and A.ri_mercurius._encounter_N > 1:
                 nenc += 1
-                break          # a close encounter happened: outside the replayable part
+                if not coarse:
+                    break      # a close encounter happened: outside the part replayable through primitives
             W.execute(B, [p for p in prims if p != "warn"], st)
             nprims += len(prims)
             a, b = msnap(A), msnap(B)
@@ -732,8 +795,177 @@ def replay_mercurius(c, W, exe, ncases):
                              {"driver_line": line, "op_index": k, "model_prims": prims, "model_flags": mflags,
                               "real_flags": aflags, "system": system})
                 return
-            c.count(("replay", "mercurius", safe, op, tuple(mflags)), nontrivial=(op in "syi"))
-    c.cov["replay_mercurius"] = {"cases": ncases, "primitive_calls_executed": nprims, "cases_cut_at_a_close_encounter": nenc, "integrate_calls": nint}
+            c.count(("replay", "mercurius", coarse, safe, op, tuple(mflags), A.ri_mercurius._encounter_N > 1), nontrivial=(op in "syi"))
+    c.cov["replay_mercurius" + ("_with_encounters" if coarse else "")] = {"cases": ncases, "primitive_calls_executed": nprims, "ops_with_a_close_encounter": nenc, "integrate_calls": nint}
+
+
+# ----------------------------------------------------------------------------- EOS replay
+class EosState:
+    """particles of a simulation mirrored in Python lists; the three elementary EOS operators in IEEE
+    double arithmetic, in the operation order of integrator_eos.c (shell-0 interaction through the real
+    reb_simulation_update_acceleration / reb_calculate_and_apply_jerk)"""
+
+    def __init__(self, W, s):
+        self.W, self.s = W, s
+        self.N = s.N
+        self.nact = s.N if s.N_active == -1 else s.N_active
+        self.tt = s.testparticle_type
+        self.G = s.G
+        self.pull()
+
+    def pull(self):
+        pp = self.s._particles
+        self.m = [pp[i].m for i in range(self.N)]
+        self.x = [[pp[i].x, pp[i].y, pp[i].z] for i in range(self.N)]
+        self.v = [[pp[i].vx, pp[i].vy, pp[i].vz] for i in range(self.N)]
+        self.a = [[pp[i].ax, pp[i].ay, pp[i].az] for i in range(self.N)]
+
+    def push(self):
+        pp = self.s._particles
+        for i in range(self.N):
+            pp[i].x, pp[i].y, pp[i].z = self.x[i]
+            pp[i].vx, pp[i].vy, pp[i].vz = self.v[i]
+            pp[i].ax, pp[i].ay, pp[i].az = self.a[i]
+
+    def drift1(self, tau):
+        for i in range(self.N):
+            x, v = self.x[i], self.v[i]
+            x[0] = x[0] + tau * v[0]
+            x[1] = x[1] + tau * v[1]
+            x[2] = x[2] + tau * v[2]
+
+    def inter0(self, y, v):
+        s, lib = self.s, self.W.lib
+        self.push()
+        s.gravity_ignore = 2
+        s._gravity = 1
+        lib.reb_simulation_update_acceleration(ctypes.byref(s))
+        if v != 0.:
+            lib.reb_calculate_and_apply_jerk(ctypes.byref(s), v)
+        self.pull()
+        for i in range(self.N):
+            vv, a = self.v[i], self.a[i]
+            vv[0] = vv[0] + y * a[0]
+            vv[1] = vv[1] + y * a[1]
+            vv[2] = vv[2] + y * a[2]
+
+    def inter1(self, y, v):
+        G, m, X, V, A, nact, N, tt = self.G, self.m, self.x, self.v, self.a, self.nact, self.N, self.tt
+        sq = math.sqrt
+        if v != 0.:
+            A[0][0] = A[0][1] = A[0][2] = 0.0
+            for j in range(1, N):
+                dx, dy, dz = X[0][0] - X[j][0], X[0][1] - X[j][1], X[0][2] - X[j][2]
+                dr = sq(dx * dx + dy * dy + dz * dz)
+                prefact = G / (dr * dr * dr)
+                if j < nact or tt:
+                    pj = -prefact * m[j]
+                    if j < nact:
+                        A[0][0] += pj * dx; A[0][1] += pj * dy; A[0][2] += pj * dz
+                pi = prefact * m[0]
+                A[j][0], A[j][1], A[j][2] = pi * dx, pi * dy, pi * dz
+                if j >= nact and tt:
+                    A[0][0] += pj * dx; A[0][1] += pj * dy; A[0][2] += pj * dz
+            for i in range(1, N):
+                dx, dy, dz = X[0][0] - X[i][0], X[0][1] - X[i][1], X[0][2] - X[i][2]
+                dax, day, daz = A[0][0] - A[i][0], A[0][1] - A[i][1], A[0][2] - A[i][2]
+                dr = sq(dx * dx + dy * dy + dz * dz)
+                alphasum = dax * dx + day * dy + daz * dz
+                prefact2 = 2. * v * G / (dr * dr * dr)
+                prefact2j = prefact2 * m[0]
+                prefact1 = alphasum * prefact2 / dr * 3. / dr
+                prefact1j = prefact1 * m[0]
+                if i < nact or tt:
+                    prefact2i = prefact2 * m[i]
+                    prefact1i = prefact1 * m[i]
+                    V[0][0] += -dax * prefact2i + dx * prefact1i
+                    V[0][1] += -day * prefact2i + dy * prefact1i
+                    V[0][2] += -daz * prefact2i + dz * prefact1i
+                V[i][0] += y * A[i][0] + dax * prefact2j - dx * prefact1j
+                V[i][1] += y * A[i][1] + day * prefact2j - dy * prefact1j
+                V[i][2] += y * A[i][2] + daz * prefact2j - dz * prefact1j
+            V[0][0] += y * A[0][0]; V[0][1] += y * A[0][1]; V[0][2] += y * A[0][2]
+        else:
+            for j in range(1, N):
+                dx, dy, dz = X[0][0] - X[j][0], X[0][1] - X[j][1], X[0][2] - X[j][2]
+                dr = sq(dx * dx + dy * dy + dz * dz)
+                prefact = y * G / (dr * dr * dr)
+                if j < nact:
+                    pj = -prefact * m[j]
+                    V[0][0] += pj * dx; V[0][1] += pj * dy; V[0][2] += pj * dz
+                pi = prefact * m[0]
+                V[j][0] += pi * dx; V[j][1] += pi * dy; V[j][2] += pi * dz
+                if j >= nact and tt:
+                    pj = -prefact * m[j]
+                    V[0][0] += pj * dx; V[0][1] += pj * dy; V[0][2] += pj * dz
+
+    def run(self, toks):
+        for t in toks:
+            k = t.split(":")
+            if k[0] == "D":
+                self.drift1(h2d(k[1]))
+            elif k[0] == "I1":
+                self.inter1(h2d(k[1]), h2d(k[2]))
+            else:
+                self.inter0(h2d(k[1]), h2d(k[2]))
+        self.push()
+
+
+def replay_eos(c, W, exe):
+    """all 9 x 9 phi0/phi1 pairs (thorough; a random third in the quick tier) x n in {1,2,3}:
+    the model's full operator list, executed with EosState, vs reb_simulation_step / synchronize"""
+    lines, cases = [], []
+    pairs = [(a, b) for a in range(9) for b in range(9)]
+    for (p0, p1) in pairs:
+        if not c.thorough and not c.rng.chance(0.34):
+            continue
+        for n in ((1, 2, 3) if c.thorough else (c.rng.randint(1, 3),)):
+            rng = c.rng.fork()
+            system = gen_system(rng)
+            system["dt"] *= 0.3
+            safe = int(rng.chance(0.3))
+            ops = [rng.choice(["s", "s", "s", "y", "y", "r"]) for _ in range(rng.randint(3, 6))]
+            if "s" not in ops:
+                ops[0] = "s"
+            lines.append("E %d %d %d %d 1 %s %s" % (p0, p1, n, safe, d2h(system["dt"]), " ".join(ops)))
+            cases.append((p0, p1, n, safe, system, ops))
+    out = run_driver(exe, lines)
+    if len(out) != len(lines):
+        c.corr_break("drv_c09 returned %d lines for %d EOS cases" % (len(out), len(lines)))
+        return
+    nops = 0
+    for (p0, p1, n, safe, system, ops), line, model in zip(cases, lines, out):
+        def setup(s):
+            s.ri_eos._phi0, s.ri_eos._phi1, s.ri_eos.n, s.ri_eos.safe_mode = p0, p1, n, safe
+        A = W.sim(system, "eos", setup)
+        B = W.sim(system, "eos", setup)
+        segs = model.split(";")
+        for k, (op, seg) in enumerate(zip(ops, segs)):
+            toks, _, fl = seg.partition("@")
+            toks = [t for t in toks.split(",") if t]
+            if op == "s":
+                W.lib.reb_simulation_step(ctypes.byref(A))
+                # part1: gravity := NONE; the acceleration pass of reb_simulation_step; then the schedule
+                B._gravity = 0
+                W.lib.reb_simulation_update_acceleration(ctypes.byref(B))
+                EosState(W, B).run(toks)
+                B.t = B.t + B.dt
+            elif op == "y":
+                W.lib.reb_simulation_synchronize(ctypes.byref(A))
+                EosState(W, B).run(toks)
+            else:
+                W.lib.reb_simulation_energy(ctypes.byref(A))
+            nops += len(toks)
+            a = {"particles": W.pbytes(A._particles, A.N), "t": d2h(A.t)}
+            b = {"particles": W.pbytes(B._particles, B.N), "t": d2h(B.t)}
+            if a != b or A.ri_eos.is_synchronized != int(fl):
+                what = "is_synchronized" if a == b else [q for q in a if a[q] != b[q]][0]
+                c.corr_break("EOS operator-schedule replay differs from reb_simulation_%s in %s (phi0=%d phi1=%d n=%d safe_mode=%d, op %d of '%s')"
+                             % ("step" if op == "s" else "synchronize", what, p0, p1, n, safe, k, " ".join(ops)),
+                             {"driver_line": line, "op_index": k, "system": system, "model_ops_head": toks[:12], "n_model_ops": len(toks)})
+                return
+            c.count(("replay", "eos", p0, p1, n, safe, op), nontrivial=(op in "sy"))
+    c.cov["replay_eos"] = {"cases": len(cases), "elementary_operator_calls_executed": nops}
 
 
 # ----------------------------------------------------------------------------- footprint table
@@ -1354,6 +1586,7 @@ def run(c):
     d = build()
     rebound = use_scratch_rebound(d)
     K = extract_constants(c)
+    extract_eos(c)
     W = World(rebound, K)
     c.prove(["RV.Props.C09"])
     exe = lean_exe("drv_c09")
@@ -1376,6 +1609,8 @@ def run(c):
     replay(c, W, exe, 5000 if c.thorough else 40, "saba")
     replay(c, W, exe, 2000 if c.thorough else 30, "var")
     replay_mercurius(c, W, exe, 3000 if c.thorough else 30)
+    replay_mercurius(c, W, exe, 400 if c.thorough else 12, coarse=True)
+    replay_eos(c, W, exe)
     probe_first_call(c, d)
     search(c, W)
 
